@@ -16,7 +16,10 @@ package main
 //   - toHandlerRouteParamsExpr / toHandlerFreshRouteParams: what ToHandler puts into the `RouteParams` field of the
 //     per-request mux.Message, and whether that is an object built for this request alone;
 //   - muxApplyDirect: for every options.MuxHandlerOpt.<X>Apply whether it installs `mux.ToHandler[…](o.m)` itself;
-//   - uriPathOptionID: the number of the Uri-Path option.
+//   - uriPathOptionID: the number of the Uri-Path option;
+//   - observationCleansUpOnEveryError / discoveryCleansUpOnFailedWrite: the two token tables that are consulted BEFORE the
+//     configured handler (observation table of a connection, multicast table of a udp server) drop the token of an
+//     exchange on every failing exit.
 //
 // Lock tracking is deliberately simple and fails closed: Lock/RLock/Unlock/RUnlock must be top-level statements of the
 // function body (or `defer … Unlock()` directly after the Lock), never nested in if/for/switch/closures; a `return`
@@ -190,6 +193,8 @@ func genRouterLockShape(g *gen, repo string) {
 	rpFresh, rpExpr := rlToHandlerRouteParams(repo)
 	applies := rlMuxApplies(repo)
 	uriPathID := rlOptionIDConst(repo, "URIPath")
+	obsCleanup := rlObservationCleanup(repo)
+	discCleanup := rlDiscoveryCleanup(repo)
 
 	var b strings.Builder
 	b.WriteString("namespace CoapVerif.Generated.RouterLockShape\n\n")
@@ -239,6 +244,10 @@ func genRouterLockShape(g *gen, repo string) {
 	}) + "\n\n")
 	b.WriteString("/-- message/option.go: `URIPath OptionID = …` (AST) -/\n")
 	fmt.Fprintf(&b, "def uriPathOptionID : Nat := %d\n\n", uriPathID)
+	b.WriteString("/-- net/observation/handler.go NewObservation: after the token was stored and the clean-up was deferred (it runs iff the\n    function's `err` variable is non-nil), does EVERY `return nil, X` hand back that variable itself, so that no failing\n    registration keeps its token in the table the connection consults before its handler (AST) -/\n")
+	fmt.Fprintf(&b, "def observationCleansUpOnEveryError : Bool := %v\n\n", obsCleanup)
+	b.WriteString("/-- udp/server/discover.go DiscoveryRequest: are the removals from multicastHandler and multicastRequests deferred BEFORE the\n    first statement that writes the datagram (so that a failed write leaves no token in the server-wide table every\n    connection's handler consults before the configured one) (AST) -/\n")
+	fmt.Fprintf(&b, "def discoveryCleansUpOnFailedWrite : Bool := %v\n\n", discCleanup)
 	b.WriteString("end CoapVerif.Generated.RouterLockShape\n")
 	g.write("RouterLockShape.lean", b.String())
 }
@@ -489,6 +498,106 @@ func rlToHandlerRouteParams(repo string) (bool, string) {
 		}
 	}
 	return fresh, sb.String()
+}
+
+func rlContainsCall(n ast.Node, recvField, method string) bool {
+	found := false
+	ast.Inspect(n, func(x ast.Node) bool {
+		c, ok := x.(*ast.CallExpr)
+		if !ok {
+			return true
+		}
+		sel, ok := c.Fun.(*ast.SelectorExpr)
+		if !ok || sel.Sel.Name != method {
+			return true
+		}
+		if recvField == "" {
+			found = true
+			return true
+		}
+		if in, ok := sel.X.(*ast.SelectorExpr); ok && in.Sel.Name == recvField {
+			found = true
+		}
+		return true
+	})
+	return found
+}
+
+// rlObservationCleanup: in Handler.NewObservation find the top-level `defer func(err *error) { if *err != nil { o.cleanUp() } }(&err)`
+// that follows the LoadOrStore of the token; every return statement after it whose second result is not the literal
+// nil must return the identifier `err` (the variable the deferred function looks at).
+func rlObservationCleanup(repo string) bool {
+	_, f := parseFile(repo, "net/observation/handler.go")
+	fd := funcDecl(f, "Handler", "NewObservation")
+	deferIdx, storeIdx := -1, -1
+	for i, st := range fd.Body.List {
+		if storeIdx < 0 && rlContainsCall(st, "observations", "LoadOrStore") {
+			storeIdx = i
+		}
+		if d, ok := st.(*ast.DeferStmt); ok && deferIdx < 0 && rlContainsCall(d, "", "cleanUp") {
+			// the argument must be &err
+			if len(d.Call.Args) != 1 {
+				fail("RouterLockShape: NewObservation: deferred clean-up does not take one argument")
+			}
+			u, ok := d.Call.Args[0].(*ast.UnaryExpr)
+			if !ok || u.Op != token.AND || identName(u.X) != "err" {
+				fail("RouterLockShape: NewObservation: deferred clean-up is not given &err")
+			}
+			deferIdx = i
+		}
+	}
+	if storeIdx < 0 || deferIdx < 0 || deferIdx < storeIdx {
+		fail("RouterLockShape: NewObservation: `observations.LoadOrStore` followed by a deferred clean-up not found")
+	}
+	ok := true
+	for _, st := range fd.Body.List[deferIdx+1:] {
+		ast.Inspect(st, func(n ast.Node) bool {
+			if _, isLit := n.(*ast.FuncLit); isLit {
+				return false
+			}
+			r, isRet := n.(*ast.ReturnStmt)
+			if !isRet {
+				return true
+			}
+			if len(r.Results) != 2 {
+				fail("RouterLockShape: NewObservation: return without two results")
+			}
+			if identName(r.Results[1]) != "nil" && identName(r.Results[1]) != "err" {
+				ok = false
+			}
+			return true
+		})
+	}
+	return ok
+}
+
+// rlDiscoveryCleanup: among the top-level statements of Server.DiscoveryRequest the deferred removals from
+// multicastHandler (LoadAndDelete) and multicastRequests (Delete) must both come before the first statement that calls
+// WriteMulticast / WriteWithContext.
+func rlDiscoveryCleanup(repo string) bool {
+	_, f := parseFile(repo, "udp/server/discover.go")
+	fd := funcDecl(f, "Server", "DiscoveryRequest")
+	store, write, delH, delR := -1, -1, -1, -1
+	for i, st := range fd.Body.List {
+		if store < 0 && rlContainsCall(st, "multicastHandler", "LoadOrStore") {
+			store = i
+		}
+		if write < 0 && (rlContainsCall(st, "", "WriteMulticast") || rlContainsCall(st, "", "WriteWithContext")) {
+			write = i
+		}
+		if d, ok := st.(*ast.DeferStmt); ok {
+			if delH < 0 && rlContainsCall(d, "multicastHandler", "LoadAndDelete") {
+				delH = i
+			}
+			if delR < 0 && rlContainsCall(d, "multicastRequests", "Delete") {
+				delR = i
+			}
+		}
+	}
+	if store < 0 || write < 0 || write < store {
+		fail("RouterLockShape: DiscoveryRequest: `multicastHandler.LoadOrStore` followed by a write of the datagram not found")
+	}
+	return delH > store && delH < write && delR > store && delR < write
 }
 
 type rlApply struct {
